@@ -437,10 +437,11 @@ PROPS = {
              "2^64-1) / params / text / signature queries; non-trivial = buffer accepted and query answered",
              "all clauses proved; memory safety of watto's unsafe casts on aligned buffers is assumed",
              assumptions=["buffers are 8-aligned", "watto's Pod casts are sound (unsafe code not modelled)"]),
-    "C13": P(["C13_mapper_never_panics", "C13_writer_counts_do_not_wrap", "C13_writer_counts_exact"],
+    "C13": P(["C13_mapper_never_panics", "C13_writer_counts_do_not_wrap", "C13_writer_counts_exact", "C13_pipeline_total"],
              "Partial (runtime stack depth). Theorems: for the records of EVERY byte string the mapper's only unchecked "
-             "subtraction is unreachable (no Panic outcome); the writer's 32-bit counters cannot wrap for mappings below "
-             "2^32 bytes; the cache reader is panic-free for every buffer (C12). The whole pipeline is run on wild-domain "
+             "subtraction is unreachable (no Panic outcome); the writer's 32-bit counters cannot wrap; for every byte "
+             "string below 2 GiB the written structure is well-formed and its bytes parse back to exactly it "
+             "(C13_pipeline_total, no domain restriction); the cache reader is panic-free for every buffer (C12). The whole pipeline is run on wild-domain "
              "inputs (numbers around 2^32 and 2^64, empty names, invalid UTF-8) with overflow checks under catch_unwind, "
              "and every layer is compared with the model.",
              "wild grammar mappings, token mutations, token soups, raw bytes x record stream, metadata, cache bytes, class "
